@@ -136,10 +136,9 @@ impl EpochSnapshotManager {
             {
                 queue.push_back(snapshot);
             } else {
-                tracing::warn!(
-                    "Failed to parse snapshot name during hydration: {}",
-                    snapshot_name
-                );
+                // Snapshot names embed the hex group id (the guard an interrupted
+                // merge_pending_commit leaves behind is such a name): not logged.
+                tracing::warn!("Failed to parse a snapshot name during hydration");
             }
         }
 
